@@ -5,6 +5,8 @@ package main
 // Lightning faults) and c06-http (a mutation grammar over valid requests of the seven operations).
 
 import (
+	"encoding/hex"
+	"crypto/sha256"
 	"bytes"
 	"fmt"
 	"math/rand"
@@ -227,7 +229,25 @@ func (s *HS) hKeys() {
 		r.arg = int64(i)
 		s.do(r)
 	case 2:
-		r := get(rtKeysId, "/v1/keys/"+[]string{"00ffffffffffffff", "nosuchkeyset", "0"}[s.rng.Intn(3)])
+		id := []string{"00ffffffffffffff", "nosuchkeyset", "0"}[s.rng.Intn(3)]
+		if len(s.cached) > 0 && s.rng.Intn(2) == 0 {
+			// the keyset handler looks its path segment up in the cache shared with NUT-19: digests of a cached
+			// request, which a client can compute, must not be served as if they were keyset ids
+			c := s.cached[s.rng.Intn(len(s.cached))].spec
+			var pre []byte
+			switch s.rng.Intn(3) {
+			case 0:
+				pre = append(append(append(append([]byte(c.method), 0), []byte(c.target)...), 0), c.body...)
+			case 1:
+				pre = append(append([]byte(c.method), []byte(c.target)...), c.body...)
+			default:
+				pre = c.body
+			}
+			d := sha256.Sum256(pre)
+			id = hex.EncodeToString(d[:])
+			s.stats["keys=digest-of-cached-request"]++
+		}
+		r := get(rtKeysId, "/v1/keys/"+id)
 		r.arg = -1
 		s.do(r)
 	case 3:
